@@ -54,15 +54,39 @@ def _bind(params: str, call: str) -> Optional[Dict[str, Any]]:
 
 
 def match_finding(findings, func: str, params: str, call: Optional[str],
-                  env: Optional[Dict[str, Any]] = None) -> Optional[Dict[str, Any]]:
+                  env: Optional[Dict[str, Any]] = None, module: Optional[str] = None,
+                  args: Optional[str] = None) -> Optional[Dict[str, Any]]:
     """A counterexample is a *known* finding only if the harness function is
     the one named in the entry AND the entry's witness predicate holds of the
-    concrete arguments."""
+    concrete arguments.  The predicate sees the obligation's parameters by
+    name, `args` (the full argument tuple passed to the harness function) and
+    `H` (the harness module, for witness helpers defined next to the harness)."""
     if call is None and env is None:
+        return None
+    if not findings:
         return None
     bound = env if env is not None else _bind(params, call)
     if bound is None:
         return None
+    bound = dict(bound)
+    if module:
+        try:
+            from . import shims  # noqa: F401
+            bound['H'] = importlib.import_module(module)
+        except Exception:
+            pass
+    if args:
+        try:
+            e = dict(vars(bound['H'])) if 'H' in bound else {}
+            e.update(bound)
+            bound['args'] = eval('(' + args + ',)', e)
+        except Exception:
+            pass
+    elif call is not None:
+        try:
+            bound['args'] = eval('(' + call + ',)', {'float': float})
+        except Exception:
+            pass
     for f in findings:
         m = f.get('match', {})
         if func not in m.get('funcs', [m.get('func')]):
@@ -192,7 +216,7 @@ class Verdicts:
                 self.inconclusive.append('counterexample of %s did not reproduce natively: ob(%s) -> %s' % (
                     ob.id, r.get('call'), json.dumps(r.get('replay'), default=repr)[:400]))
             else:
-                f = match_finding(self.findings, ob.func, ob.params, r.get('call'))
+                f = match_finding(self.findings, ob.func, ob.params, r.get('call'), module=ob.module, args=ob.args)
                 if f is not None:
                     self.known[f['id']] = f
                     sample['known_finding'] = f['id']
